@@ -321,7 +321,7 @@ class G:
         """let(v => a) -> def(f, body using $ and $v) -> let(v => b) -> f(c): the closure keeps its defining scope"""
         rng = self.rng
         v = rng.choice(VARS)
-        name = rng.choice(['f', 'g'])
+        name = rng.choice(['f', 'g', 'sumSq', 'fnA'])
         self.note('construct.let', 2)
         self.note('construct.def')
         self.note('nest.shadowing')
@@ -338,7 +338,7 @@ class G:
     def def_(self, t, env, d):
         rng = self.rng
         self.note('construct.def')
-        name = rng.choice(['f', 'g'])
+        name = rng.choice(['f', 'g', 'sumSq', 'fnA'])
         env_body = dict(env)
         env_body['$'] = 'I'
         fbody = self.gen('I', env_body, d - 1)
@@ -379,11 +379,44 @@ def same(x, y):
     return x == y
 
 
+def host_override_layer(base):
+    """a host layer that overrides a few library functions and forwards to the overridden ones through an injected
+    Super(): every lambda keeps the scope of its call site"""
+    ctx = base.create_child_context()
+
+    def forward(name, params):
+        src = ['def %s(%s, base):' % (name, ', '.join(p for p, lazy in params)),
+               '    return base(%s)' % ', '.join(p for p, lazy in params)]
+        ns = {}
+        exec('\n'.join(src), ns)
+        fn = ns[name]
+        for p, lazy in params:
+            if lazy:
+                fn = yspecs.parameter(p, yt.Lambda())(fn)
+        fn = yspecs.parameter(params[0][0], yt.Iterable())(fn)
+        fn = yspecs.inject('base', yt.Super(method=True))(fn)
+        fn = yspecs.method(fn)
+        ctx.register_function(fn, name=name)
+    forward('select', [('collection', False), ('selector', True)])
+    forward('where', [('collection', False), ('predicate', True)])
+    forward('any', [('collection', False), ('predicate', True)])
+    forward('all', [('collection', False), ('predicate', True)])
+    return ctx
+
+
 class Mon:
     def __init__(self, rec):
         self.rec = rec
         self.eng = yq.engine({'yaql.limitIterators': 5000})
         self.ctx = yaql.create_context()
+        # other worlds in which the same program has the same meaning: another naming convention, the delegate
+        # functions and syntax enabled, a host layer that overrides library functions and forwards to them
+        from yaql.language import conventions as yconv
+        self.worlds = {
+            'python-convention': (self.eng, yaql.create_context(convention=yconv.PythonConvention())),
+            'delegates': (yq.engine({'yaql.limitIterators': 5000}, allow_delegates=True), yaql.create_context(delegates=True)),
+            'host-overrides': (self.eng, host_override_layer(yaql.create_context())),
+        }
         self.reach = hooks.Reach()
         self.reach.watch(yt.Lambda.convert, 'Lambda.convert')
         self.reach.watch(yctx.Context.get_data, 'get_data')
@@ -402,8 +435,22 @@ class Mon:
         self.reach.flush(self.rec)
         self.reach.stop()
 
-    def run(self, text, doc, variables):
-        ctx = self.ctx.create_child_context()
+    def run(self, text, doc, variables, world=None):
+        eng, base = self.worlds[world] if world else (self.eng, self.ctx)
+        ctx = base.create_child_context()
+        if world:
+            if world == 'python-convention':      # library names are spelled in snake_case there
+                text = text.replace('.toList(', '.to_list(').replace('.selectMany(', '.select_many(')
+            for k, v in variables.items():
+                ctx[k] = yutils.convert_input_data(v)
+            try:
+                return ('value', eng(text).evaluate(data=doc, context=ctx))
+            except KeyError:
+                return ('error', 'KeyError')
+            except IndexError:
+                return ('error', 'IndexError')
+            except Exception as e:
+                return ('error', type(e).__name__)
         for k, v in variables.items():
             ctx[k] = yutils.convert_input_data(v)     # what a host does for data it puts into a context
         try:
@@ -462,6 +509,17 @@ def one_program(mon, rec, rng, rp):
     if ok and got[0] == 'error' and want[1] in ('KeyError', 'IndexError'):
         ok = got[1] == want[1]
     rec.count(('agree.' + got[0]) if ok else 'disagree')
+    if ok:
+        w = rng.choice(sorted(mon.worlds))
+        other = mon.run(text, doc, host_vars, world=w)
+        rec.count('world.' + w)
+        same_w = other[0] == got[0] and (same(other[1], got[1]) if got[0] == 'value' else (
+            other[1] == got[1] or want[1] not in ('KeyError', 'IndexError')))
+        if not same_w:
+            kinds = sorted(k.split('.', 1)[1] for k in stats if k.startswith(('construct.', 'nest.')))
+            rec.violation('evaluation-depends-on-context-flavour:%s' % w,
+                          '%s on document %r gives %r in the default context and %r in the %s world (constructs %s)' % (
+                              text, doc, got, other, w, '+'.join(kinds)[:80]), dict(rp, text=text))
     if not ok:
         kinds = sorted(k.split('.', 1)[1] for k in stats if k.startswith(('construct.', 'nest.')))
         rec.violation('evaluation-differs-from-reference-interpreter:%s' % ('+'.join(kinds)[:80] or 'plain'),
@@ -492,6 +550,32 @@ FIXED = [
     ('let(x => [1, 2]) -> $x.select($ + $x.len())', {}, {}, [3, 4]),
     ('[[1, 2], [3]].select($.select($ * 2))', {}, {}, [[2, 4], [6]]),
     ('def(fact, switch($ < 2 => 1, true => $ * fact($ - 1))) -> fact(5)', {}, {}, 120),
+]
+
+
+NOMATCH = ('error', 'NoMatchingFunctionException')
+FIXED_WORLDS = [
+    # (world, text, data, expected value | NOMATCH): first-class functions (delegates enabled) and the legacy function set
+    ('delegates', 'let(f => lambda($ + 1)) -> $f(2)', None, 3),
+    ('delegates', 'lambda($1 + $2)(1, 2)', None, 3),
+    ('delegates', 'let(x => 5) -> let(f => lambda($ + $x)) -> let(x => 7) -> $f(1)', None, 6),
+    ('delegates', 'let(f => lambda($ * 2)) -> [1, 2].select($f($))', None, [2, 4]),
+    ('delegates', 'let(mk => lambda(lambda($ + $1))) -> $mk(10)(5)', None, 10),
+    ('delegates', 'let(f => lambda($)) -> $f()', 9, 9),
+    ('delegates', 'let(f => lambda([$, $1, $2])) -> $f(1, 2)', 9, [1, 1, 2]),
+    ('delegates', 'let(f => lambda($x)) -> let(x => 3) -> $f()', None, None),
+    ('delegates', 'let(f => null) -> $f(1)', None, NOMATCH),          # a value that is not a function is not callable:
+    ('delegates', '$undefined(1)', None, NOMATCH),                    # unknown variables are null
+    ('delegates', '($.handler)(1)', {'handler': None}, NOMATCH),
+    ('delegates', 'let(f => 5) -> $f(1)', None, NOMATCH),
+    ('delegates', "let(f => 'len') -> $f([1])", None, NOMATCH),
+    ('legacy', '[1, 2].as(sum($) => a) -> $', 77, 77),                 # as() binds names, `$` stays the outer one
+    ('legacy', '[1, 2].as(sum($) => a) -> $a', 77, 3),
+    ('legacy', '$.as(len($) => n) -> $n', [1, 2, 3], 3),
+    ('legacy', '[1, 2].as(len($) => n, sum($) => s) -> [$n, $s, $]', 5, [2, 3, 5]),
+    ('legacy', '5.as($ + 1 => a, $ + 2 => b) -> $a * $b', None, 42),
+    ('legacy', '5.as($ + 1 => a) -> 7.as($ * 2 => b) -> [$a, $b, $]', 1, [6, 14, 1]),
+    ('legacy', '[1, 2].as($a => b) -> $b', None, None),
 ]
 
 
@@ -568,6 +652,28 @@ def run_shard(spec, rec):
                         text, doc, got, want), {'kind': 'fixed', 'text': text})
                 else:
                     rec.count('agree.value')
+            from yaql import legacy as ylegacy
+            worlds = {'delegates': [(yq.engine(allow_delegates=True), yaql.create_context(delegates=True))],
+                      'legacy': [(ylegacy.YaqlFactory().create(), ylegacy.create_context()), (yq.engine(), ylegacy.create_context())]}
+            for world, text, doc, want in FIXED_WORLDS:
+                for eng, base in worlds[world]:
+                    try:
+                        got = ('value', eng(text).evaluate(data=doc, context=base.create_child_context()))
+                    except Exception as e:
+                        got = ('error', type(e).__name__)
+                    rec.count('programs')
+                    rec.count('fixed.programs')
+                    rec.count('fixed.world.' + world)
+                    rec.case((world, text, repr(doc)), nontrivial=True)
+                    if got[0] == 'value' and isinstance(got[1], tuple):
+                        got = ('value', list(got[1]))         # the legacy engine keeps tuples
+                    ok = got == want if want is NOMATCH else (got[0] == 'value' and same(got[1], want))
+                    if not ok:
+                        rec.violation('evaluation-differs-from-language-reference:fixed:%s' % world,
+                                      '%s on %r (%s world) gives %r, expected %r' % (text, doc, world, got, want),
+                                      {'kind': 'fixed', 'text': text})
+                    else:
+                        rec.count('agree.' + got[0])
             return
         if spec['kind'] == 'patterns':
             rng = rng_for(spec['seed'], 'c04', spec['name'])
